@@ -229,3 +229,47 @@ func clipSrc(s string) string {
 	}
 	return s
 }
+
+// Upvalues of a reloaded function: "Other upvalues are initialized with nil.
+// All upvalues are fresh, that is, they are not shared with any other
+// function" (manual, load) — nor with each other. A function with k upvalues
+// besides _ENV that counts in each of them is dumped, reloaded and called
+// twice; the values it returns are computed here.
+func upvalueCase(k int) (src, want string) {
+	names := seq(k, func(i int) string { return "u" + strconv.Itoa(i) }, ", ")
+	var sb strings.Builder
+	sb.WriteString("local " + names + "\n")
+	sb.WriteString("local function f(n)\n  local ty = type\n")
+	for i := 1; i <= k; i++ {
+		fmt.Fprintf(&sb, "  u%d = (u%d or 0) + n * %d\n", i, i, i)
+	}
+	sb.WriteString("  return " + names + "\nend\n")
+	sb.WriteString("local g = assert(load(string.dump(f)))\n")
+	sb.WriteString("g(1)\nlocal r = table.pack(g(1))\n")
+	// the original's variables are untouched, the reloaded upvalues are pairwise distinct
+	sb.WriteString("local untouched = true for i, v in ipairs({" + names + "}) do untouched = false end\n")
+	sb.WriteString("local ids, distinct = {}, true for i = 1, 300 do local name = debug.getupvalue(g, i) if not name then break end local id = debug.upvalueid(g, i) if ids[id] then distinct = false end ids[id] = true end\n")
+	sb.WriteString("f(5)\nlocal again = table.pack(g(0))\n")
+	sb.WriteString("local same = true for i = 1, r.n do if r[i] ~= again[i] then same = false end end\n")
+	sb.WriteString("return untouched, distinct, same, r.n, table.unpack(r, 1, r.n)\n")
+	w := []string{"true", "true", "true", "i:" + strconv.Itoa(k)}
+	for i := 1; i <= k; i++ {
+		w = append(w, "i:"+strconv.Itoa(2*i))
+	}
+	return sb.String(), strings.Join(w, " ")
+}
+
+func checkUpvalues(k int) string {
+	src, want := upvalueCase(k)
+	tr := harness.Run(src, harness.Opts{ChunkName: "chunk"})
+	if tr.Panic != "" {
+		return "Go panic: " + tr.Panic
+	}
+	if tr.ErrTok != "" || tr.CompileErr != "" {
+		return fmt.Sprintf("error %s %s", tr.ErrTok, tr.CompileErr)
+	}
+	if tr.Rets != want {
+		return fmt.Sprintf("a reloaded function with %d upvalues that counts in each of them, called twice: expected (original untouched, upvalue ids distinct, unaffected by the original, n, values) = %s, golua returns %s", k, clipSrc(want), clipSrc(tr.Rets))
+	}
+	return ""
+}
